@@ -64,6 +64,7 @@ type Contract struct {
 	MayBlock  bool
 	Nonblock  bool
 	Unchecked []string // obligation kinds not generated for this function (documented assumption)
+	DeadReturns []int  // returns (source order) that the callee contracts make unreachable (defensive code)
 	Lemmas    []string // opt-in lemma families (bvarith)
 	Fresh     []string // components written only in objects allocated during the call
 	LoopFresh map[int][]string
@@ -134,7 +135,7 @@ func (cs *ContractSet) parseContractText(file string, lines []string, lineNos []
 			cs.imports[a] = p
 		case "constglobal":
 			cs.consts[strings.TrimSpace(rest)] = true
-		case "mode", "logical", "requires", "ensures", "loop", "inline", "noinline", "trusted", "pure", "modifies", "noreturn", "assume", "call", "mayblock", "nonblocking", "unchecked", "appends", "lemmas", "freshwrites":
+		case "mode", "logical", "requires", "ensures", "loop", "inline", "noinline", "trusted", "pure", "modifies", "noreturn", "assume", "call", "mayblock", "nonblocking", "unchecked", "appends", "lemmas", "freshwrites", "deadreturns":
 			if cur == nil {
 				cs.errs = append(cs.errs, src+": clause outside func block")
 				continue
@@ -156,6 +157,12 @@ func (cs *ContractSet) parseContractText(file string, lines []string, lineNos []
 				cur.MayBlock = true
 			case "nonblocking":
 				cur.Nonblock = true
+			case "deadreturns":
+				for _, k := range strings.Split(rest, ",") {
+					if n, err := strconv.Atoi(strings.TrimSpace(k)); err == nil {
+						cur.DeadReturns = append(cur.DeadReturns, n)
+					}
+				}
 			case "freshwrites":
 				for _, k := range strings.Split(rest, ",") {
 					cur.Fresh = append(cur.Fresh, strings.TrimSpace(k))
